@@ -195,6 +195,38 @@ oracles do not depend on buffer geometry, private field layout, map iteration or
 matched by witness class, state comparisons by slice *depths* of the idle instance, errors by `errors.Is` / nil-ness).
 `seeded/hand/` holds hand-written property-breaking changes used while building individual families (see its README).
 
+### 7.5 Bug hunting by independent sub-agents on the unmodified tree
+
+After the three rounds of seeded changes, six fresh sub-agents were given a cluster of properties each (fold, unfold,
+parsers, encoders, reuse / pull decoders, memory / concurrency), a scratch worktree of the *repaired* tree, the list of
+repaired defects, and the task to find inputs on which the unmodified library still violates a property (failing test
+required). Their deliveries are kept under `seeded/hunt/<cluster>/<n>/` (`demo_test.go`, `notes.txt`) together with the
+hypotheses that held (`held.txt`). 36 deliveries collapsed into the following distinct issues. **Every issue accepted as
+a violation of a listed statement was first given corpus until a check reported it, and only then repaired** (one
+`fix:` commit each, §6.1):
+
+| issue | reported by | verdict | check that sees it (before the repair) | repair |
+|---|---|---|---|---|
+| self-referential map / slice / pointer types: fatal stack overflow in `Fold` and `NewUnfolder` | A, B, E, F | genuine (C11 quantifies over self-referential types) | C11, C12, C14 (`SeedRecursiveContainers`) | `f5f3c9a` |
+| refused self-referential struct poisons the type registry: nil function call on the next `Fold`; unsupported target accepted on the next `SetTarget` | A, E, F | genuine (C11 "refused with an error, not by a crash"; C14 "as a new unfolder would") | C12 iterator histories, C14 abandonment search (`SeedBadRec`) | `f5f3c9a`, `d550185` |
+| `map[NamedString]V` panics for struct / pointer / slice / map `V` | B, E, F | genuine (C14) | C11, C14 (`SeedNamedKeys`) | `d4bde33` |
+| registered unfolder for `T` corrupts `[]*T`, `map[string]*T` | B, E | genuine (C14: memory outside the target) | C13, C14 (custom unfolders behind pointer elements) | `5752255` |
+| nil value of an interface type containing `Fold` panics | A | genuine (C12: interfaces fold as null when nil) | C12, C09 (`SeedFolderIfc`) | `c1166a0` |
+| `omitempty` ignores `IsZero` on custom array / string / slice / map types | A | genuine (C12 lists `IsZero()==true`; my model had mirrored the code) | C12 (`SeedZeroSized`) | `fa5101e` |
+| cborl / ubjson `Decoder` break on a `(0, nil)` read | C, D, E | genuine (C18: "whatever sizes its reads return"; I had assumed it away) | C18 (one zero-byte read per schedule) | `c92062c` |
+| json `Parser.Parse` keeps flags of a rejected text | C | genuine (C04: every valid text is accepted; `Parse` resets the parser) | C04 (`json-after-rejected`) | `2195d44` |
+| `gotype.Fold` returns nil when an option (`Folders(...)`) is invalid | A, D, E, F | real, but no listed statement speaks about options | — | not repaired (see §8) |
+| out-of-range numbers wrap silently on unfold; pre-filled slices keep elements beyond `len`; `SetTarget` without `Reset` after a failed document | B, F | the statements make no promise there (C13: "whenever the value fits"; C14: "after Reset and SetTarget") | — | — |
+| registered unfolder / `Expander` ignored for `[]T` / `map[string]T` struct fields of primitive kind; unfolder registered for a pointer type | A, B, E, F | real; C13's statement does not mention custom unfolders (my check covers more than the statement there, but not this) | — | not repaired (see §8) |
+| UBJSON no-op where a field name is expected is rejected | C | the draft is ambiguous; no longer judged either way (`ubj-noop-insertions`) | — | — |
+| 13 bytes denoting 2⁶³ payload-less elements | C | documented exclusion (§6.3, C03) | — | — |
+| json / cborl parsers and all `Decoder`s deliver further events when called *again* after a visitor error; decoders drop a non-EOF read error delivered with data; json encoder drops errors of a sink that fails only once | C, D | the first arguably falls under C16's second sentence; my C16 judges the failing call only (see §8); the others are outside the statements (persistent failures, `io.EOF`) | — | not repaired |
+| JSON lexical leniency (`0123`, `+1`, `.5`, `\'`, `\v` as blank); `OnByte(b >= 128)` written as UBJSON char; invalid UTF-8 copied into CBOR / UBJSON strings | C, D | C04 demands rejection of wrong *structure* only; C01 demands byte-exact strings; char: my reference follows the library's data model (§4) | — | — |
+| inlined `*Self` field: stack overflow when the folder is compiled | A, F | real, pathological; not explored | — | not repaired (see §8) |
+
+No sub-agent found a violation of C15, C19 or C20, nor of chunking independence (C02), conformance on well-formed input
+(C04-C06), the round trips (C01), or the visitor contract on accepted input (C09).
+
 ---------------------------------------------------------------------------
 
 """ % (seed_tab, rev_tab, ba_sec, ("Fixes whose revert is not detected by any quick check: %d (see rows with NONE)." % len(missing)) if missing else "Every revertible fix is detected by at least one quick check.")
